@@ -155,13 +155,30 @@ def gen_cfg(rng, prob, cons=None):
     varh = rng.randint(0, 3 if nonneg else 2)
     domh = rng.randint(0, 4 if nonneg else 3)
     costs = [[rng.choice([1, 1, 2, 3, 5]) for _ in range(maxv + 1)] for _ in prob.shr] if nonneg else [[]]
-    return nv.Cfg(cons=cons, varh=varh, domh=domh, var_costs=costs if varh == 3 else [[]], dom_costs=costs if domh == 4 else [[]])
+    # every shared domain stays a decision domain (the hypothesis of C02), but in a random ORDER two times out of five
+    decision = None
+    if rng.random() < 0.4:
+        decision = list(range(len(prob.shr)))
+        rng.shuffle(decision)
+    return nv.Cfg(cons=cons, varh=varh, domh=domh, var_costs=costs if varh == 3 else [[]], dom_costs=costs if domh == 4 else [[]],
+                  decision=decision)
 
 
 # ----------------------------------------------------------------------------- worker side
 
 
 def _exec_case(c):
+    if c.get("observe") and os.environ.get("NUMBA_DISABLE_JIT") == "1" and c["op"] in ("solve", "opt"):
+        # C17: count the events independently of the statistics array (harness/observe.py)
+        import observe
+
+        try:
+            observe.install()
+            observe.reset()
+        except Exception:  # noqa: BLE001  the source no longer offers the observation points: run unobserved, never an alarm
+            return _exec_case(dict(c, observe=False))
+        r = _exec_case(dict(c, observe=False))
+        return tuple(r) + (observe.snapshot(),) if r[0] == "ok" else r
     prob = nv.Prob.from_json(c["problem"])
     cfg = nv.Cfg(**c["cfg"])
     if c["op"] == "solve":
